@@ -102,6 +102,19 @@ def payloads():
     add('grouping', [D('a', L(2)), D('b', L(3)), D('c', L(4)), P(B('*', B('+', V('a'), V('b')), V('c'))), P(B('-', V('a'), B('-', V('b'), V('c')))),
                      P(B('-', B('-', V('a'), V('b')), V('c'))), P(B('//', B('*', V('c'), V('b')), B('+', V('a'), L(1)))),
                      P(B('^', B('+', V('a'), L(1)), L(2))), P(B('mod', B('*', V('c'), V('c')), B('+', V('b'), V('a'))))])
+    # every (parent, child, side) pair of the Int operators, with operands that tell the groupings apart
+    IOPS = ['+', '-', '*', '//', 'mod', '^']
+    for pop in IOPS:
+        st = [D('a', L(7)), D('b', L(5)), D('d', L(2))]
+        for cop in IOPS:
+            st.append(P(B(pop, V('a'), B(cop, V('b'), V('d')))))      # a p (b c d)
+            st.append(P(B(pop, B(cop, V('a'), V('b')), V('d'))))      # (a c b) p d
+        add(f'pairs{pop}', st)
+    add('pairs-cmp-bool', [D('a', L(7)), D('b', L(5)), D('d', L(2)), D('p', L(True)), D('q', L(False)),
+                           P(B('<', B('+', V('a'), V('b')), B('*', V('b'), V('d')), BOOL)), P(B('=', B('mod', V('a'), V('d')), B('-', V('b'), L(4)), BOOL)),
+                           P(B('and', B('or', V('p', BOOL), V('q', BOOL), BOOL), V('q', BOOL), BOOL)), P(B('or', V('p', BOOL), B('and', V('q', BOOL), V('q', BOOL), BOOL), BOOL)),
+                           P(B('and', {'k': 'not', 'e': V('q', BOOL), 't': BOOL}, B('>', V('a'), V('b'), BOOL), BOOL)),
+                           P({'k': 'not', 'e': B('or', V('q', BOOL), B('<', V('a'), V('b'), BOOL), BOOL), 't': BOOL})])
     add('sqrt', [D('r', {'k': 'sqrt', 'e': L(16), 't': FLOAT}, FLOAT), P(V('r', FLOAT)), D('r2', {'k': 'sqrt', 'e': L(2.25), 't': FLOAT}, FLOAT), P(V('r2', FLOAT))])
     add('neg', [D('a', L(5)), D('n', {'k': 'neg', 'e': V('a'), 't': INT}, INT, ann=True), P(V('n')), D('m', {'k': 'neg', 'e': B('-', V('a'), L(7)), 't': INT}, INT, ann=True), P(V('m'))])
     # ranges
@@ -115,6 +128,10 @@ def payloads():
     add('range-expr-bounds', [D('n', L(3)), FOR('i', B('-', V('n'), L(2)), B('+', V('n'), L(1)), [P(B('*', V('i'), V('n')))]),
                               FOR('j', L(0), V('n'), [P(V('j'))], True)])
     add('range-var-step', [D('s', L(2)), FOR('i', L(0), L(6), [P(V('i'))], True, V('s')), D('m', B('-', L(0), L(3))), FOR('j', L(6), L(0), [P(V('j'))], True, V('m'))])
+    add('range-negated-var-step', [D('back', B('-', L(0), L(2))), FOR('i', L(1), L(5), [P(V('i'))], True, {'k': 'neg', 'e': V('back'), 't': INT}),
+                                   D('dd', L(3)), FOR('j', L(6), L(0), [P(V('j'))], True, {'k': 'neg', 'e': V('dd'), 't': INT}),
+                                   FOR('m', L(6), L(0), [P(V('m'))], False, {'k': 'neg', 'e': V('dd'), 't': INT}),
+                                   FOR('n', L(0), L(6), [P(V('n'))], True, {'k': 'neg', 'e': B('-', V('back'), L(1)), 't': INT})])
     add('nested-for', [FOR('i', L(0), L(2), [FOR('j', L(0), L(2), [P(B('+', B('*', V('i'), L(10)), V('j')))], True)])])
     # control flow
     add('if', [D('a', L(3)), IF(B('>', V('a'), L(2), BOOL), [P(L('big'))]), IF(B('>', V('a'), L(5), BOOL), [P(L('huge'))]), P(L('after'))])
